@@ -158,7 +158,7 @@ func VH_C08_SiblingTypes() {
 // changes that child only: every sibling keeps its content, warm and cold runs
 // agree, both stay structurally valid and commit to identical registers.
 //
-//vh:prop C08 C10 C07
+//vh:prop C08 C10 C07 C03 C13
 //vh:init cbor
 //vh:sched first
 //vh:param children 2 3
@@ -330,6 +330,20 @@ func VH_C08_SiblingIsolation() {
 				if ok {
 					vhAssert(got == cvals[c][k], what+": sibling content unchanged")
 				}
+			}
+			// every way of enumerating the sibling agrees with the lookups (C13)
+			switch x := v.(type) {
+			case *Array:
+				n1, n2 := 0, 0
+				e1 := x.IterateReadOnly(func(Value) (bool, error) { n1++; return true, nil })
+				e2 := x.Iterate(func(Value) (bool, error) { n2++; return true, nil })
+				vhAssert(e1 == nil && e2 == nil && n1 == 2 && n2 == 2, what+": sibling enumerates fully, read-only and mutable")
+			case *OrderedMap:
+				n1, n2, n3 := 0, 0, 0
+				e1 := x.IterateReadOnly(func(Value, Value) (bool, error) { n1++; return true, nil })
+				e2 := x.Iterate(vhCompareBK, vhHipB, func(Value, Value) (bool, error) { n2++; return true, nil })
+				e3 := x.IterateKeys(vhCompareBK, vhHipB, func(Value) (bool, error) { n3++; return true, nil })
+				vhAssert(e1 == nil && e2 == nil && e3 == nil && n1 == 2 && n2 == 2 && n3 == 2, what+": sibling enumerates fully, read-only and mutable")
 			}
 		}
 		// the target agrees between runs (compared below) and the parent is valid
